@@ -30,7 +30,7 @@ UNITS = {
         widths=[16, 8],
         prelude='preludes/ctrl.rs',
         specs='contracts/ctrl.vspec',
-        lemmas=['lemmas/ctrl_lemmas.rs', 'lemmas/mask_lemmas.rs', 'lemmas/probe_lemmas.rs', 'lemmas/loop_lemmas.rs', 'lemmas/accounting_lemmas.rs', 'lemmas/reach_lemmas.rs'],
+        lemmas=['lemmas/ctrl_lemmas.rs', 'lemmas/mask_lemmas.rs', 'lemmas/probe_lemmas.rs', 'lemmas/loop_lemmas.rs', 'lemmas/accounting_lemmas.rs', 'lemmas/slot_lemmas.rs', 'lemmas/reach_lemmas.rs'],
         extra='ctrl_rules',
         items=[
             I(TAG, r'^impl Tag$', 'is_full', impl='Tag'),
@@ -146,6 +146,34 @@ UNITS = {
             I(RAW, r'^impl < T > RawIterRange < T >$', 'next_impl', impl='RawIterRange<T>', key='RawIterRange::next_impl'),
             I(RAW, r'^impl < T > RawIterRange < T >$', 'fold_impl', impl='RawIterRange<T>', key='RawIterRange::fold_impl'),
             I(RAW, r'^impl < T > Iterator for RawIter < T >$', 'next', impl='RawIter<T>', key='RawIter::next'),
+        ],
+    ),
+    # C13 / C01 / C06 / C04: rehash_in_place (no-unwind path): every element re-placed where a lookup finds it
+    'rehash': dict(
+        widths=[16, 8],
+        prelude='preludes/ctrl.rs',
+        prelude_extra='preludes/rehash.rs',
+        specs=['contracts/ctrl.vspec', 'contracts/rehash.vspec'],
+        lemmas=['lemmas/ctrl_lemmas.rs', 'lemmas/mask_lemmas.rs', 'lemmas/probe_lemmas.rs', 'lemmas/loop_lemmas.rs', 'lemmas/slot_lemmas.rs', 'lemmas/rehash_lemmas.rs'],
+        extra='rehash_rules',
+        items=[
+            I(TAG, r'^impl Tag$', 'is_full', impl='Tag'),
+            I(TAG, r'^impl Tag$', 'full', impl='Tag'),
+            I(RAW, None, 'h1'),
+            I(RAW, None, 'bucket_mask_to_capacity'),
+            I(RAW, r'^impl RawTableInner$', 'buckets', impl='RawTableInner'),
+            I(RAW, r'^impl RawTableInner$', 'probe_seq', impl='RawTableInner'),
+            I(RAW, r'^impl RawTableInner$', 'is_bucket_full', impl='RawTableInner'),
+            I(RAW, r'^impl RawTableInner$', 'set_ctrl', impl='RawTableInner'),
+            I(RAW, r'^impl RawTableInner$', 'set_ctrl_hash', impl='RawTableInner'),
+            I(RAW, r'^impl RawTableInner$', 'replace_ctrl_hash', impl='RawTableInner'),
+            I(RAW, r'^impl RawTableInner$', 'find_insert_slot_in_group', impl='RawTableInner'),
+            I(RAW, r'^impl RawTableInner$', 'fix_insert_slot', impl='RawTableInner'),
+            I(RAW, r'^impl ProbeSeq$', 'move_next', impl='ProbeSeq'),
+            I(RAW, r'^impl RawTableInner$', 'find_insert_slot', impl='RawTableInner'),
+            I(RAW, r'^impl RawTableInner$', 'prepare_rehash_in_place', impl='RawTableInner'),
+            I(RAW, r'^impl RawTableInner$', 'is_in_same_group', impl='RawTableInner'),
+            I(RAW, r'^impl RawTableInner$', 'rehash_in_place', impl='RawTableInner'),
         ],
     ),
 }
@@ -505,6 +533,148 @@ def iter_rules(toks, i, out, hit):
         hit('R15c_pointer_cast_dropped')
         return i + 4
     return None
+
+
+def rehash_rules(toks, i, out, hit):
+    """unit `rehash` (on top of ctrl_rules / grow_rules):
+       R18  scope guard elided: `let mut guard = guard(self, CLOSURE);` and `mem::forget(guard);` dropped,
+            `*guard` and `guard` -> `self` (unwinding is not modelled; the closure is unit `guard`)
+       R19  `ptr::copy_nonoverlapping(A, B, N)` -> `self.elem_copy(A, B, N)`, `ptr::swap_nonoverlapping` -> `self.elem_swap`
+       R7c  `['L:] for X in A..B { BODY }` -> `let end_ = B; let mut it_ = A; ['L:] loop { if !(it_ < end_) { break; }
+            let X = it_; it_ = it_ + 1; BODY }`   (Range::next; `continue` keeps its meaning)
+       R8c  `hasher(T, I)` -> `hasher.call(T, I)`
+       R20  a local closure used as a function, `let F = |X: T| EXPR;`, is inlined at its calls `F(E)` -> `(EXPR[X := (E)])`"""
+    t = toks[i]
+    n = len(toks)
+
+    def seq(k, *texts):
+        return k + len(texts) <= n and all(toks[k + a].text == x for a, x in enumerate(texts))
+    T = extract.T
+    if t.kind == 'id' and t.text == 'fn':
+        _FLAGS['inl'] = {}
+    # R18
+    if t.text == 'let' and seq(i + 1, 'mut', 'guard', '=', 'guard', '(', 'self', ','):
+        c = extract._find_close(toks, i + 5)
+        if toks[c + 1].text != ';':
+            raise ExtractError('R18: unexpected shape of guard construction')
+        hit('R18_scope_guard_elided')
+        return c + 2
+    if t.text == 'mem' and seq(i + 1, ':', ':', 'forget', '(', 'guard', ')', ';'):
+        hit('R18_scope_guard_elided')
+        return i + 8
+    if t.text == '*' and seq(i + 1, 'guard', '.'):
+        toks[i + 1] = T('self', toks[i + 1].gap)
+        hit('R18_guard_to_self')
+        return i          # re-examine `*self.ctrl(..)` (R5)
+    if t.text == '*' and seq(i + 1, 'guard') and not seq(i + 2, '.'):
+        out.append(T('self', t.gap))
+        hit('R18_guard_deref_to_self')
+        return i + 2
+    if t.kind == 'id' and t.text == 'guard' and not (out and out[-1].text == '.'):
+        toks[i] = T('self', t.gap)
+        hit('R18_guard_to_self')
+        return i          # re-examine as `self` (R5 patterns)
+    # R19
+    if t.text == 'ptr' and seq(i + 1, ':', ':') and toks[i + 3].text in ('copy_nonoverlapping', 'swap_nonoverlapping') and seq(i + 4, '('):
+        name = 'elem_copy' if toks[i + 3].text == 'copy_nonoverlapping' else 'elem_swap'
+        out.extend([T('self', t.gap), T('.', ''), T(name, '')])
+        hit('R19_raw_element_move_to_table_method')
+        return i + 4
+    # R8c
+    if t.kind == 'id' and t.text == 'hasher' and seq(i + 1, '(') and not (out and out[-1].text in ('.', 'fn')):
+        out.extend([T('hasher', t.gap), T('.', ''), T('call', '')])
+        hit('R8c_hasher_call_to_shim_call')
+        return i + 1
+    # R20
+    if t.text == 'let' and i + 3 < n and toks[i + 1].kind == 'id' and seq(i + 2, '=', '|') and toks[i + 4].kind == 'id' and seq(i + 5, ':'):
+        k = i + 6
+        while k < n and toks[k].text != '|':
+            k += 1
+        e0 = k + 1
+        depth = 0
+        e1 = e0
+        while e1 < n and not (toks[e1].text == ';' and depth == 0):
+            if toks[e1].text in '([{':
+                depth += 1
+            elif toks[e1].text in ')]}':
+                depth -= 1
+            e1 += 1
+        body = toks[e0:e1]
+        if any(x.text in ('return', '?', 'move') for x in body):
+            raise ExtractError('R20: closure body is not a plain expression')
+        _FLAGS['inl'][toks[i + 1].text] = (toks[i + 4].text, body)
+        hit('R20_local_closure_recorded')
+        return e1 + 1
+    if t.kind == 'id' and t.text in (_FLAGS.get('inl') or {}) and seq(i + 1, '(') and not (out and out[-1].text in ('.', 'fn', 'let')):
+        param, body = _FLAGS['inl'][t.text]
+        c, args = _args_until_close(toks, i + 1)
+        args = extract.rewrite(args, set(), _HITS, rehash_rules)
+        out.append(T('(', t.gap))
+        for x in extract.rewrite([T(y.text, y.gap, y.kind) for y in body], set(), _HITS, rehash_rules):
+            if x.kind == 'id' and x.text == param:
+                out.append(T('(', x.gap))
+                out.extend([T(a.text, a.gap, a.kind) for a in args])
+                out.append(T(')', ''))
+            else:
+                out.append(x)
+        out.append(T(')', ''))
+        hit('R20_local_closure_inlined')
+        return c + 1
+    # R7c
+    lab = None
+    if t.kind == 'life' and seq(i + 1, ':', 'for'):
+        lab = t
+        f = i + 2
+    elif t.kind == 'id' and t.text == 'for' and out and out[-1].text in (';', '{', '}'):
+        f = i
+    else:
+        f = None
+    if f is not None and toks[f + 1].kind == 'id' and toks[f + 2].text == 'in':
+        k = f + 3
+        depth = 0
+        b = k
+        while b < n:
+            x = toks[b]
+            if x.text in '([':
+                depth += 1
+            elif x.text in ')]':
+                depth -= 1
+            elif x.text == '{' and depth == 0:
+                break
+            b += 1
+        hdr = toks[k:b]
+        dd = [q for q in range(len(hdr) - 1) if hdr[q].text == '.' and hdr[q + 1].text == '.' and hdr[q + 1].gap == '']
+        pd = 0
+        ok = False
+        for q in dd:
+            if sum(1 for z in hdr[:q] if z.text in '([') == sum(1 for z in hdr[:q] if z.text in ')]'):
+                ok = True
+                break
+        if ok:
+            A = extract.rewrite(hdr[:q], set(), _HITS, rehash_rules)
+            B = extract.rewrite(hdr[q + 2:], set(), _HITS, rehash_rules)
+            close = extract._find_close(toks, b)
+            body = extract.rewrite(toks[b + 1:close], set(), _HITS, rehash_rules)
+            X = toks[f + 1].text
+            g0 = (lab or toks[f]).gap
+            out.extend([T('let', g0), T('end_'), T('=')] + B + [T(';', ''), T('let', '\n'), T('mut'), T('it_'), T('=')] + A + [T(';', '')])
+            if lab is not None:
+                out.extend([T(lab.text, '\n', 'life'), T(':', '')])
+            out.extend([T('loop', '\n' if lab is None else ' '), T('{'), T('if', '\n'), T('!'), T('(', ''), T('it_', ''), T('<'), T('end_'), T(')', ''),
+                        T('{'), T('break'), T(';', ''), T('}'), T('let', '\n'), T(X), T('='), T('it_'), T(';', ''),
+                        T('it_', '\n'), T('='), T('it_'), T('+'), T('1'), T(';', '')])
+            out.extend(body)
+            out.append(T('}', '\n'))
+            hit('R7c_for_over_range_to_loop')
+            return close + 1
+    r = grow_rules(toks, i, out, hit)
+    if r is not None:
+        return r
+    _FLAGS['no_r7'] = True
+    try:
+        return ctrl_rules(toks, i, out, hit)
+    finally:
+        _FLAGS['no_r7'] = False
 
 
 def generate(unit_name, width, outdir):
